@@ -305,6 +305,12 @@ class Run:
         for k in known:
             print("KNOWN-FINDING: property=%s %s [%s; observed %d time(s) in this run]" %
                   (self.prop, k.get("what", ""), k["sig"], hit.get(k["sig"], 0)))
+        if viol:
+            cnt = {}
+            for m in viol:
+                cnt[m["sig"]] = cnt.get(m["sig"], 0) + 1
+            for sg, n in sorted(cnt.items(), key=lambda kv: -kv[1])[:60]:
+                log("  %6d x %s" % (n, sg))
         rdir = os.path.join(VERIF, "replays", self.prop)
         seen = set()
         nrep = 0
